@@ -607,4 +607,130 @@ theorem error_codes_consistent :
     (∀ d ∈ Generated.fortranWrapperDispatch, d.2.1 = 0 ∨ ∃ x ∈ Generated.fortranTemplateCodes, x.2.2 = d.2.1) := by
   decide
 
+/-! ## Non-vacuity (review): every hypothesis-carrying theorem instantiated at a concrete non-trivial instance -/
+
+section Review
+
+private def exNames : List String := allNames ["Y", "C"] ["X", "Z"] ["a"] ["e"]
+
+/-- `fortran_numbering` / `fortran_numbers_distinct` on a six-name class. -/
+example : numberOf exNames "a" = some (exNames.idxOf "a" + 1) :=
+  fortran_numbering ["Y", "C"] ["X", "Z"] ["a"] ["e"] "a" (by decide) (by decide)
+example : numberOf exNames "X" ≠ numberOf exNames "Z" :=
+  fun h => absurd (fortran_numbers_distinct exNames "X" "Z" (by decide) (by decide) (by decide) h) (by decide)
+
+private def exNum : String → Option Nat := fun s => if s = "C" then some 2 else some 3
+
+/-- `fortran_index_rewrite`: `Con[t-1]+1` with `Con ↦ 3`. -/
+example : rewriteEquation exNum (('C' :: ['o', 'n']) ++ '[' :: (('t' :: ['-', '1']) ++ ']' :: ['+', '1'])) =
+    (rewriteEquation exNum ['+', '1']).map
+      (fun r => svOpen ++ natChars 3 ++ [',', ' ', 'i', 'n', 'd', 'e', 'x'] ++ ['-', '1'] ++ [')'] ++ r) :=
+  fortran_index_rewrite exNum 'C' ['o', 'n'] ['-', '1'] ['+', '1'] 3 (by decide) (by decide) (by decide) (by decide)
+
+private def validNameB : List Char → Bool
+  | [] => false
+  | c :: cs => isIdStart c && cs.all isIdChar
+private theorem validName_of (name : List Char) (h : validNameB name = true) : ValidName name := by
+  cases name with
+  | nil => cases h
+  | cons c cs =>
+    simp only [validNameB, Bool.and_eq_true, List.all_eq_true] at h
+    exact ⟨c, cs, rfl, h.1, h.2⟩
+private def exK : List Char → Nat := fun n => if n = ['C'] then 2 else 3
+private def exRhs : Expr (List Char) := .bin .add (.var ['C'] (-1)) (.fn1 .exp (.var ['X', '1'] 2))
+
+/-- `rewrite_expression_text` on `C[t] = (C[t-1] + exp(X1[t+2]))`. -/
+example : rewriteEquation exNum (eqAtom ['C'] 0 ++ ([' ', '=', ' '] ++ renderExpr eqAtom exRhs)) =
+    some (fAtom (exK ['C']) 0 ++ ([' ', '=', ' '] ++ renderExpr fAtom (exRhs.map exK))) :=
+  rewrite_expression_text exNum exK ['C'] exRhs ⟨validName_of _ (by decide), by decide⟩
+    (fun p hp => ⟨validName_of _ ((by decide : ∀ p ∈ exRhs.refs, validNameB p.1 = true) p hp),
+      (by decide : ∀ p ∈ exRhs.refs, exNum (String.ofList p.1) = some (exK p.1)) p hp⟩)
+
+/-- `fortran_index_rewrite_cell`: row 1, `t = -1` (last of three columns), offset −1. -/
+example : (⟨2, 3, [10, 20, 11, 21, 12, 22]⟩ : Mat Nat).pyGet 0 1 (-1 + -1) =
+    some ((⟨2, 3, [10, 20, 11, 21, 12, 22]⟩ : Mat Nat).fget 0 (((1 : Nat) : Int) + 1) (indexOf 3 (-1 + 1) + -1)) :=
+  fortran_index_rewrite_cell ⟨2, 3, [10, 20, 11, 21, 12, 22]⟩ 0 1 (-1) (-1) (by decide) (by decide) (by decide) (by decide)
+
+private def exNumS : String → Nat := fun x => if x = "X" then 3 else 1
+private def exCell : Nat → Int → Int := fun r _ => if r = 3 then 4000 else 1000
+private def exRho : String → Int → Int := fun x _ => if x = "X" then 4000 else 1000
+
+/-- `kind_safe_agree` / `kind_safe_assign_agree` on `exExpr` in the toy tower. -/
+example : ∃ v, denF toyT exCell (exExpr.map exNumS) = some v ∧ lift toyT v = denP toyT.o8 exRho exExpr :=
+  kind_safe_agree toyT toyExact toy_coherent exNumS exCell exRho exExpr (by decide) (by decide)
+example : (denF toyT exCell (exExpr.map exNumS)).map (fun v => v.to8 toyT) = some ((denP toyT.o8 exRho exExpr).toF toyT.o8) :=
+  kind_safe_assign_agree toyT toyExact toy_coherent exNumS exCell exRho exExpr (by decide) (by decide)
+
+/-- The two negative theorems fire in the toy tower. -/
+example : ¬ FullAgree toyT exNumS exCell exRho := full_agree_false_at_half toyT exNumS exCell exRho (by decide)
+example : ¬ FullAgree toyT exNumS exCell exRho := full_agree_false_at_tenth toyT exNumS exCell exRho (by decide)
+
+/-- `evaluate_agree` on the two-equation program at `t = -2`. -/
+example : pBody toyT.o8 exProg exMat (-2) = (fBody toyT exProg exMat (indexOf exMat.ncols (-2 + 1)), false) :=
+  evaluate_agree toyT toyExact toy_coherent exProg exMat (-2) (by decide) (by decide) (by decide)
+
+/-- `evaluate_frame` / `offset_copy_frame`: storage cell 0 (row 1, column 1) is not written at column 2. -/
+example : (fBody toyT exProg exMat 2).mem[0]? = exMat.mem[0]? ∧ (fBody toyT exProg exMat 2).nrows = exMat.nrows ∧
+    (fBody toyT exProg exMat 2).ncols = exMat.ncols :=
+  evaluate_frame toyT exProg exMat 2 0 (by decide)
+example : (copyRows (0 : Int) [1, 2] 2 1 exMat).mem[0]? = exMat.mem[0]? :=
+  offset_copy_frame 0 [1, 2] 2 1 exMat 0 (by decide)
+example : copyRows (0 : Int) [1, 2] 2 1 exMat = ⟨2, 3, [1000, 2000, 1000, 2000, 5000, 6000]⟩ := by decide
+
+/-- `wEvaluate_returns_engine_block` at a feasible period of the toy engine. -/
+example : (wEvaluate (toyW 0) (0, 0) 1).1 = (evaluate (toyW 0) (0, 0) (1 + 1)).1 :=
+  wEvaluate_returns_engine_block (toyW 0) (0, 0) 1 (by decide)
+
+private theorem toyR (i : Nat) : FiniteRegime (toyW 0) i (fun _ => True) :=
+  ⟨fun _ _ => trivial, fun _ _ => rfl, fun _ _ => rfl⟩
+private theorem toyG : GlobalRegime (toyW 0) (fun _ => True) :=
+  ⟨fun _ _ _ => trivial, fun _ _ _ _ => trivial, fun _ _ _ => rfl, fun _ _ _ => rfl⟩
+
+/-- `fortran_loop_eq_python_loop`: five passes allowed from pass 1 at period 1 (column 2). -/
+example : asOut (loop (toInterp (toyW 0)) {} 1 5 1 (0, 0) (0, 0)) (if 5 = 0 then 0 else 0) =
+    some (floop (toyW 0) (cfgOf {} 0) 2 5 1 (0, 0) (0, 0) 0) :=
+  fortran_loop_eq_python_loop (toyW 0) (cfgOf {} 0) {} 1 2 (fun _ => True) (toyR 2) rfl (by decide)
+    (fun _ => rfl) 5 1 (0, 0) (0, 0) 0 (by decide) trivial rfl
+example : floop (toyW 0) (cfgOf {} 0) 2 5 1 (0, 0) (0, 0) 0 = ⟨(1, 3), true, 4, 0⟩ := by decide
+
+/-- `fortran_solveT_eq_python` at period 1 of the toy model. -/
+example : SolveTAgree (toyW 0) {} 1 toyWorld :=
+  fortran_solveT_eq_python (toyW 0) {} 1 toyWorld (fun _ => True) (by decide) (by decide) (by decide) (toyR _)
+    (fun _ _ _ => rfl) trivial
+
+/-- `fortran_check_rows_aligned`: two convergence rows of `exMat` at `t = -2`. -/
+private def exSpec : Spec Int := ⟨exProg, [0, 1], [0, 1], 3, 1, 1, 1⟩
+example : ((specWrapped toyT exSpec).check exMat (indexOf exMat.ncols (-2 + 1)).toNat).map some =
+    (exSpec.conv.map fun r => exMat.pyGet (toyT.o8.ofInt 0) r (-2)) :=
+  fortran_check_rows_aligned toyT exSpec exMat (-2) (by decide) (by decide)
+example : (exSpec.conv.map fun r => exMat.pyGet (toyT.o8.ofInt 0) r (-2)) = [some 3000, some 4000] := by decide
+
+/-- `fortran_solve_eq_python_solveList` / `fortran_solve_eq_python_solve`: three periods, the first fails under
+    `max_iter = 2`. -/
+example : wSolve (toyW 0) { maxIter := 2 } [0, 1, 2] toyWorld =
+    ((solveList (toInterp (toyW 0)) { maxIter := 2 } 3 [0, 1, 2] toyWorld [] []).1,
+     ofSolveResult (solveList (toInterp (toyW 0)) { maxIter := 2 } 3 [0, 1, 2] toyWorld [] []).2) :=
+  fortran_solve_eq_python_solveList (toyW 0) { maxIter := 2 } [0, 1, 2] toyWorld (fun _ => True) toyG trivial
+    (by decide) (by decide) (by decide)
+example : wSolveFull (toyW 0) {} (some (.pos 1)) (some (.pos 2)) toyWorld =
+    ((Fsic.solve (toInterp (toyW 0)) {} 3 0 0 (some (.pos 1)) (some (.pos 2)) toyWorld).1,
+     ofSolveResult (Fsic.solve (toInterp (toyW 0)) {} 3 0 0 (some (.pos 1)) (some (.pos 2)) toyWorld).2) :=
+  fortran_solve_eq_python_solve (toyW 0) {} (some (.pos 1)) (some (.pos 2)) toyWorld (fun _ => True) toyG trivial
+    (by decide) (fun i h => by cases h; decide) (by decide)
+
+/-- `fortran_solve_frame` / `fortran_later_periods_untouched`: the record of period 2 survives. -/
+example : (wSolve (toyW 0) { maxIter := 2 } [0, 1] ⟨(0, 0), [.solved, .solved, .solved], [5, 6, 7]⟩).1.status[2]? =
+      some .solved ∧
+    (wSolve (toyW 0) { maxIter := 2 } [0, 1] ⟨(0, 0), [.solved, .solved, .solved], [5, 6, 7]⟩).1.iters[2]? = some 7 :=
+  fortran_solve_frame (toyW 0) { maxIter := 2 } [0, 1] ⟨(0, 0), [.solved, .solved, .solved], [5, 6, 7]⟩ 2
+    (by decide) (by decide)
+example : (dispatchList { maxIter := 2 } 3 ([(0, ⟨true, 4, 0⟩), (1, ⟨false, 2, 0⟩)] ++ [(2, ⟨true, 1, 0⟩)])
+      (⟨0, [.solved, .solved, .solved], [5, 6, 7]⟩ : World Nat)).1.status[2]? = some .solved ∧
+    (dispatchList { maxIter := 2 } 3 ([(0, ⟨true, 4, 0⟩), (1, ⟨false, 2, 0⟩)] ++ [(2, ⟨true, 1, 0⟩)])
+      (⟨0, [.solved, .solved, .solved], [5, 6, 7]⟩ : World Nat)).1.iters[2]? = some 7 :=
+  fortran_later_periods_untouched { maxIter := 2 } 3 [(0, ⟨true, 4, 0⟩), (1, ⟨false, 2, 0⟩)] [(2, ⟨true, 1, 0⟩)]
+    ⟨0, [.solved, .solved, .solved], [5, 6, 7]⟩ .nonConvergence (by decide) 2 (by decide) (by decide)
+
+end Review
+
 end Fsic.C07
